@@ -27,7 +27,13 @@ Sane == pc = "out" => /\ InUnit(out.recall) /\ InUnit(out.fa) /\ InUnit(out.rpa)
                       /\ RLeq(out.rpa, out.rca)
                       /\ Len(out.cv.ev) = Len(out.cv.rv) /\ Len(out.cv.ec) = Len(out.cv.rc)
                       /\ \A k \in 1..Len(out.cv.rv) : InUnit(out.cv.rv[k]) /\ InUnit(out.cv.ev[k])
-(* a series scored against itself under the same pre-processing is perfect whenever a voiced frame survives *)
-SelfPerfect == pc = "out" /\ ref = est /\ (\E k \in 1..Len(out.cv.rv) : out.cv.rv[k][1] > 0) => out.rpa = <<1, 1>> /\ out.rca = <<1, 1>>
+(* a series scored against itself under the same pre-processing gets raw pitch / chroma accuracy 1 whenever a voiced  *)
+(* frame survives - EXCEPT in one class that TLC found (thorough configuration, hop finer than the grid): a NON-binary  *)
+(* voicing / reward is interpolated linearly ACROSS a transition from a pitchless frame to a pitched one, so the        *)
+(* resampled frame in between carries reward > 0 but no pitch, and can never be "correct" (recorded finding, C02).      *)
+PitchlessThenPitched(s0) == LET s == FV(PadW(s0)) IN \E k \in 1..(Len(s.t) - 1) : s.c[k] = 0 /\ s.c[k + 1] # 0 /\ s.w[k + 1][1] > 0
+QuirkClass == kind = "linear" /\ hop > 0 /\ ~IsBinaryW(FV(PadW(ref)).w) /\ PitchlessThenPitched(ref)
+SelfPerfect == pc = "out" /\ ref = est /\ (\E k \in 1..Len(out.cv.rv) : out.cv.rv[k][1] > 0) /\ ~QuirkClass
+                 => out.rpa = <<1, 1>> /\ out.rca = <<1, 1>>
 Export == pc = "out" => PrintT("ROW" \o ToJson([ref |-> ref, est |-> est, hop |-> hop, kind |-> kind, out |-> out]))
 =============================================================================
